@@ -225,6 +225,45 @@ def block_results_stream(ctx, rng):
                 ctx.violation(f"C06:block-result-raised-{type(e).__name__}", f"{name}: {type(e).__name__}: {str(e)[:60]}", rep)
 
 
+def fine_scan_stream(ctx, rng):
+    """a nested circuit that is very sensitive to wl (long waveguide) solved at parameter values that differ only in the
+    9th digit, and with long sweeps that agree at both ends: each solve must equal the same call on a fresh build"""
+    L = impl.lk()
+
+    def build():
+        child = L.Solver(name="cell")
+        with child:
+            ps = L.PhaseShifter().put()
+            L.Waveguide(L=1.0e6, n=1.5).put("a0", ps.pin["b0"])
+            L.raise_pins()
+        top = L.Solver(name="top")
+        with top:
+            c = child.put()
+            L.Waveguide(L=10.0, n=1.5).put("a0", (c, L.Pin("b0")))
+            L.raise_pins()
+        return top
+    top = build()
+    calls = [{"wl": 1.55}, {"wl": 1.55 + 2e-9}, {"wl": 1.55 + 4e-9, "PS": 0.25}, {"wl": 1.55 + 4e-9, "PS": 0.25 + 1e-9}]
+    n = 1200
+    base = np.full(n, 0.1)
+    a = base.copy(); a[400:500] = 0.7
+    b = base.copy(); b[600:700] = 0.3
+    calls += [{"wl": 1.55, "PS": a}, {"wl": 1.55, "PS": b}]
+    for k, kw in enumerate(calls):
+        ctx.case(("fine-scan", k), tags=["stream:fine-scan"])
+        rep = {"kind": "fine-scan", "call": k}
+        try:
+            got = np.array(top.solve(**kw).S)
+            ref = np.array(build().solve(**kw).S)
+        except Exception as e:  # noqa
+            ctx.violation(f"C06:fine-scan-raised-{type(e).__name__}", str(e)[:80], rep)
+            return
+        if got.shape != ref.shape or np.max(np.abs(got - ref)) > 1e-9:
+            ctx.violation("C06:history-dependent", f"nested solve #{k} ({'sweep of 1200 points' if k >= 4 else kw}) differs from the same call on a fresh build by "
+                          f"{np.max(np.abs(got - ref)) if got.shape == ref.shape else 'shape'}: an earlier solve with nearly equal arguments left a trace", rep)
+            return
+
+
 def gen_kw(rng):
     r = rng.random()
     if r < 0.2:
@@ -257,6 +296,7 @@ def kw_json(kw):
 def run(ctx):
     rng = ctx.subrng("c06")
     block_results_stream(ctx, rng)
+    fine_scan_stream(ctx, rng)
     n = ctx.budget(120, 1500)
     maxs = 8 if ctx.tier == "quick" else 14
     for i in range(n):
@@ -304,6 +344,11 @@ def run(ctx):
 
 def replay(ctx, data):
     from common import parse_cfrac
+    if data.get("kind") == "fine-scan":
+        fine_scan_stream(ctx, ctx.subrng("c06"))
+        if ctx.violations:
+            return False, ctx.violations[0]["what"]
+        return True, "nested solves with nearly equal arguments are independent"
     if data.get("kind") == "block-result":
         block_results_stream(ctx, ctx.subrng("c06"))
         if ctx.violations:
